@@ -193,6 +193,18 @@ func (a *Attributes) XXX_UnmarshalByFlags(flags uint32, buf *Buffer) (err error)
 
 	if a.Flags&AttrExtended != 0 {
 		count := buf.ConsumeCount()
+		if buf.Err != nil {
+			return buf.Err
+		}
+
+		// Each extended attribute occupies at least 8 bytes (two
+		// length-prefixed strings), so a count larger than buf.Len()/8
+		// cannot fit and is malformed.
+		if count < 0 || count > buf.Len()/8 {
+			buf.off = len(buf.b)
+			buf.Err = ErrShortPacket
+			return buf.Err
+		}
 
 		a.ExtendedAttributes = make([]ExtendedAttribute, count)
 		for i := range a.ExtendedAttributes {
